@@ -452,6 +452,192 @@ def run(ck, prog, ctx):
                 ck.undecided("TABLE", "sf/term/" + nm, "the summand of the tail is computed in a helper / plain loop: the term %s is not classified" % nm, where=sf.where())
             else:
                 ck.ob("TABLE", "sf/term/" + nm, nm in seen, "sf %s the term %s" % ("uses" if nm in seen else "LACKS", nm), where=sf.where())
+    # ---- ln C(n, k): -inf exactly when k > n, otherwise ln n! - ln k! - ln (n-k)!
+    lb = prog.body("stats::hypergeom::statrs::ln_binomial")
+    if ck.anchor("TABLE", "statrs::ln_binomial", lb):
+        from engines import compare_switches, relation_cases
+        from expr import F as eF, sub as esub
+        cmps = []
+        for cs in compare_switches(lb, pvn):
+            pl, pr = params_of(pvn.of_operand(lb, cs["l"]), lb.id), params_of(pvn.of_operand(lb, cs["r"]), lb.id)
+            if (pl, pr) in (({2}, {1}), ({1}, {2})):
+                cmps.append((cs, pl == {1}))
+        def yields_neg_inf(tg, sw):
+            for r in lb.region((sw, tg)):
+                for st in lb.blocks[r].stmts:
+                    if st.k == "assign" and st.place.local == 0 and st.rv["k"] == "use" and st.rv["op"].kind == "const":
+                        c = st.rv["op"].const
+                        if "NEG_INFINITY" in str(c.get("def", "")) + str(c.get("val", "")) or str(c.get("val", "")).lower().startswith("-inf"):
+                            return True
+            return False
+        if len(cmps) != 1:
+            ck.undecided("TABLE", "ln_binomial/guard", "expected one comparison of k with n, found %d" % len(cmps), where=lb.where())
+        else:
+            cs, swapped = cmps[0]
+            cases = relation_cases(cs, swap=swapped)  # k against n
+            inf = {c: yields_neg_inf(tg, cs["bb"]) for c, tg in cases.items()}
+            ok = inf == {"lt": False, "eq": False, "gt": True}
+            names = {"lt": "k < n", "eq": "k = n", "gt": "k > n"}
+            ck.ob("TABLE", "ln_binomial/guard", ok, "ln_binomial returns -inf (C(n,k) = 0) for %s (expected: for k > n only%s)" % (", ".join(names[c] for c in ("lt", "eq", "gt") if inf[c]) or "no case", "" if ok else "; C(n,n) = 1 and C(n,k) > 0 for k < n"), where=lb.where(cs["line"]))
+        def bleaf(ex, body, kind, obj):
+            if body is not lb:
+                return None
+            if kind == "call" and (obj.callee.res or "").endswith("statrs::ln_factorial") and len(obj.args) == 1:
+                return eF("lf", ex.operand(body, obj.args[0], 0, getattr(ex, "_at", None)))
+            if kind == "place" and obj.is_local() and 1 <= obj.local <= 2:
+                return S("n" if obj.local == 1 else "k")
+            return None
+        fsts = [(pos, st) for pos, st in lb.stmts() if st.k == "assign" and st.place.local == 0 and st.place.is_local() and st.rv["k"] in ("bin", "use") and not (st.rv["k"] == "use" and st.rv["op"].kind == "const")]
+        calls0 = [(bi, t) for bi, t in lb.calls() if t.dest is not None and t.dest.is_local() and t.dest.local == 0]
+        if len(fsts) != 1 or calls0:
+            ck.undecided("TABLE", "ln_binomial/formula", "the finite result is not one arithmetic expression in this function", where=lb.where())
+        else:
+            pos, st = fsts[0]
+            ex = Extract(prog, pvn, bleaf)
+            fe = ex.rvalue(lb, st, 0, pos)
+            pn, pk = S("%s#p1" % lb.id), S("%s#p2" % lb.id)
+            want = esub(esub(eF("lf", pn), eF("lf", pk)), eF("lf", esub(pn, pk)))
+            eq = expr_equal(fe, want)
+            if eq is None:
+                ck.undecided("TABLE", "ln_binomial/formula", "expression %s has leaves that are not recognised" % eshow(fe), where=lb.where(st.line))
+            else:
+                ck.ob("TABLE", "ln_binomial/formula", eq, "ln_binomial = %s %s ln n! - ln k! - ln (n-k)!" % (eshow(fe), "=" if eq else "is NOT"), where=lb.where(st.line))
+
+    # ---- ln Gamma (used for every factorial argument above the table): Lanczos approximation, g = 10.900511, 11 coefficients
+    STAT = "stats::hypergeom::statrs::"
+    lg = prog.body(STAT + "ln_gamma")
+    if ck.anchor("TABLE", "statrs::ln_gamma", lg):
+        import math
+        from engines import compare_switches as _cs
+        from expr import F as eF, sub as esub, add as eadd, mul as emul, C as eC
+        def fconst(name):
+            cb = prog.body(STAT + name)
+            if cb is None:
+                return None
+            for pos, st in cb.stmts():
+                if st.k == "assign" and st.place.local == 0 and st.rv["k"] == "use":
+                    return st.rv["op"].float_value()
+            return None
+        def farray(name):
+            pb = prog.bodies.get(STAT + name + "::promoted[0]")
+            if pb is None:
+                return None
+            for pos, st in pb.stmts():
+                if st.k == "assign" and st.rv["k"] == "agg" and st.rv.get("agg") == "array":
+                    vals = [o.float_value() for o in st.rv["ops"]]
+                    return vals if all(v is not None for v in vals) else None
+            return None
+        REF_DK = [2.48574089138753565546e-5, 1.05142378581721974210, -3.45687097222016235469, 4.51227709466894823700, -2.98285225323576655721, 1.05639711577126713077,
+                  -1.95428773191645869583e-1, 1.70970543404441224307e-2, -5.71926117404305781283e-4, 4.63399473359905636708e-6, -2.71994908488607703910e-9]
+        close = lambda a, b: a is not None and abs(a - b) <= 4e-16 * max(1.0, abs(b))
+        dk = farray("GAMMA_DK")
+        if dk is None:
+            ck.undecided("TABLE", "ln_gamma/coefficients", "coefficient array GAMMA_DK not recognised")
+        else:
+            bad = [i for i in range(max(len(dk), len(REF_DK))) if i >= len(dk) or i >= len(REF_DK) or not close(dk[i], REF_DK[i])]
+            ck.ob("TABLE", "ln_gamma/coefficients", not bad, "GAMMA_DK holds %d coefficients; %s" % (len(dk), "all equal to the published Lanczos coefficients for g = 10.900511" if not bad else "coefficient(s) %s differ from the published Lanczos values (ln n! is wrong for every n > 170)" % bad), where=prog.body(STAT + "GAMMA_DK").where())
+        for nm, ref, what in (("GAMMA_R", 10.900511, "g"), ("LN_PI", math.log(math.pi), "ln(pi)"), ("LN_2_SQRT_E_OVER_PI", math.log(2.0 * math.sqrt(math.e / math.pi)), "ln(2*sqrt(e/pi))")):
+            v = fconst(nm)
+            if v is None:
+                ck.undecided("TABLE", "ln_gamma/const/" + nm, "constant not recognised")
+            else:
+                ck.ob("TABLE", "ln_gamma/const/" + nm, close(v, ref), "%s = %r (%s = %r)" % (nm, v, what, ref), where=prog.body(STAT + nm).where())
+        # the two branches
+        K = lambda n: S("const:" + (STAT + n if not n.startswith("std::") else n))
+        def gleaf(ex, body, kind, obj):
+            if kind == "call" and obj.callee.method == "fold":
+                return S("SUM")
+            return None
+        X = S("%s#p1" % lg.id)
+        half = eC("1/2")
+        hi = eadd(eadd(eF("ln", S("SUM")), K("LN_2_SQRT_E_OVER_PI")), emul(esub(X, half), eF("ln", ediv(eadd(esub(X, half), K("GAMMA_R")), K("std::f64::consts::E")))))
+        lo = esub(esub(esub(esub(K("LN_PI"), eF("ln", eF("sin", emul(K("std::f64::consts::PI"), X)))), eF("ln", S("SUM"))), K("LN_2_SQRT_E_OVER_PI")),
+                  emul(esub(half, X), eF("ln", ediv(eadd(esub(half, X), K("GAMMA_R")), K("std::f64::consts::E")))))
+        thr = [c for c in _cs(lg, pvn) if params_of(pvn.of_operand(lg, c["l"]), lg.id) == {1} and c["r"].float_value() == 0.5 and c["op"] in ("Lt", "Ge")]
+        if len(thr) != 1:
+            ck.undecided("TABLE", "ln_gamma/branches", "the reflection threshold `x < 0.5` is not recognised", where=lg.where())
+        else:
+            c = thr[0]
+            small_tg = c["true_tg"] if c["op"] == "Lt" else c["false_tg"]
+            big_tg = c["false_tg"] if c["op"] == "Lt" else c["true_tg"]
+            for tg, want, nm in ((big_tg, hi, "x >= 0.5"), (small_tg, lo, "x < 0.5")):
+                reg = lg.region((c["bb"], tg))
+                sts = [(pos, st) for pos, st in lg.stmts() if pos[0] in reg and st.k == "assign" and st.place.local == 0 and st.place.is_local()]
+                if len(sts) != 1:
+                    ck.undecided("TABLE", "ln_gamma/formula/" + nm, "result of the branch is not one arithmetic expression", where=lg.where())
+                    continue
+                pos, st = sts[0]
+                fe = Extract(prog, pvn, gleaf).rvalue(lg, st, 0, pos)
+                eq = expr_equal(fe, want)
+                if eq is None:
+                    ck.undecided("TABLE", "ln_gamma/formula/" + nm, "expression %s has leaves that are not recognised" % eshow(fe)[:200], where=lg.where(st.line))
+                else:
+                    ck.ob("TABLE", "ln_gamma/formula/" + nm, eq, "ln_gamma for %s %s the Lanczos formula %s" % (nm, "is" if eq else "is NOT", "" if eq else "(found %s)" % eshow(fe)[:200]), where=lg.where(st.line))
+        # the series: sum = d0 + sum_{i>=1} d_i / (x + i - 1)   (x >= 0.5)   |   d_i / (i - x)   (x < 0.5)
+        for bi, t in lg.calls():
+            if t.callee.method != "fold" or len(t.args) != 3:
+                continue
+            side = "x >= 0.5" if thr and bi in lg.region((thr[0]["bb"], thr[0]["false_tg"] if thr[0]["op"] == "Lt" else thr[0]["true_tg"])) else "x < 0.5"
+            from engines import adaptor_chain
+            chain = adaptor_chain(lg, pvn, t.args[0])
+            skips = [(b2, t2) for b2, t2 in lg.calls() if t2.callee.method == "skip" and lg.dominates(b2, bi) and b2 in lg.region((thr[0]["bb"], thr[0]["true_tg"] if (side == "x < 0.5") == (thr[0]["op"] == "Lt") else thr[0]["false_tg"]))] if thr else []
+            okc = chain[:3] == ["skip", "enumerate", "iter"] and len(skips) == 1 and skips[0][1].args[1].int_value() == 1
+            ck.ob("TABLE", "ln_gamma/series-range/" + side, okc, "the series for %s runs over the coefficients %s" % (side, "1.. with their index (d0 is the start value)" if okc else "through %s (expected iter().enumerate().skip(1))" % chain[:4]), where=lg.where(t.line))
+            init = t.args[1]
+            iv = None
+            if init.place is not None and init.place.is_local():
+                for kind, pos, d in pvn.defs(lg).get(init.place.local, []):
+                    if kind == "assign" and d.rv["k"] == "use" and d.rv["op"].place is not None:
+                        es = [e for e in d.rv["op"].place.fields() if e != "*"]
+                        if len(es) == 1 and es[0][0] in ("idx", "cidx"):
+                            if es[0][0] == "cidx":
+                                iv = es[0][1] if isinstance(es[0][1], int) else es[0][1].get("offset")
+                            else:
+                                for k2, p2, d2 in pvn.defs(lg).get(es[0][1], []):
+                                    if k2 == "assign" and d2.rv["k"] == "use" and d2.rv["op"].kind == "const":
+                                        iv = d2.rv["op"].int_value()
+            ck.ob("TABLE", "ln_gamma/series-start/" + side, iv == 0, "the series for %s starts from coefficient %s (expected d0)" % (side, "d%s" % iv if iv is not None else "?"), where=lg.where(t.line))
+            cid = pvn.closure_of_operand(lg, t.args[2])
+            cb = prog.bodies.get(cid) if cid else None
+            if cb is None:
+                ck.undecided("TABLE", "ln_gamma/series-term/" + side, "fold closure not found", where=lg.where(t.line))
+                continue
+            def cleaf(ex, body, kind, obj, _cb=cb):
+                if body is not _cb:
+                    return None
+                if kind == "place":
+                    es = [e for e in obj.fields() if e != "*"]
+                    if obj.local == 3 and len(es) == 1 and es[0][0] == "f":
+                        return S("d_i" if es[0][1] == "1" else "i")
+                    if obj.local == 2 and not es:
+                        return S("acc")
+                    if obj.local == 1 and es and es[0][0] == "f" and es[0][1].endswith("x"):
+                        return S("x")
+                if kind == "param":
+                    idx, path = obj
+                    pe = [e for e in path if e != "*"]
+                    if idx == 2 and not pe:
+                        return S("acc")
+                    if idx == 3 and len(pe) == 1 and pe[0][0] == "f":
+                        return S("d_i" if pe[0][1] == "1" else "i")
+                if kind == "call":
+                    tt = obj
+                    tgt = prog.bodies.get(tt.callee.res) if tt.callee.res else None
+                    if (tt.callee.method in absint.CONVERSIONS or is_conversion_fn(prog, tgt)) and len(tt.args) == 1:
+                        return ex.operand(body, tt.args[0], 0, getattr(ex, "_at", None))
+                return None
+            rsts = [(pos, st) for pos, st in cb.stmts() if st.k == "assign" and st.place.local == 0 and st.place.is_local()]
+            if len(rsts) != 1:
+                ck.undecided("TABLE", "ln_gamma/series-term/" + side, "closure result is not one expression", where=cb.where())
+                continue
+            fe = Extract(prog, pvn, cleaf).rvalue(cb, rsts[0][1], 0, rsts[0][0])
+            want = eadd(S("acc"), ediv(S("d_i"), esub(eadd(S("x"), S("i")), eC(1)))) if side == "x >= 0.5" else eadd(S("acc"), ediv(S("d_i"), esub(S("i"), S("x"))))
+            eq = expr_equal(fe, want)
+            if eq is None:
+                ck.undecided("TABLE", "ln_gamma/series-term/" + side, "term %s has leaves that are not recognised" % eshow(fe)[:160], where=cb.where())
+            else:
+                ck.ob("TABLE", "ln_gamma/series-term/" + side, eq, "series term for %s: %s %s" % (side, eshow(fe)[:120], "= acc + d_i/(x+i-1)" if eq and side == "x >= 0.5" else "= acc + d_i/(i-x)" if eq else "is NOT the Lanczos term"), where=cb.where())
+
     lf = prog.body("stats::hypergeom::statrs::ln_factorial")
     if lf is not None:
         ok = False
@@ -461,6 +647,33 @@ def run(ck, prog, ctx):
                     at = pvn.of_operand(fb, t.args[0])
                     ok = any(a[0] == "op" and a[1] == "Add" for a in at) and any(a[0] == "const" and a[2] in ("1f64",) for a in at)
                     ck.ob("TABLE", "ln_factorial/fallback", ok, "ln_factorial falls back to ln_gamma(x %s)" % ("+ 1" if ok else "without + 1"), where=fb.where(t.line))
+        # the table branch: ln of the entry at index x
+        gets = [(bi, t) for bi, t in lf.calls() if t.callee.method == "get" and len(t.args) == 2]
+        moe = [(bi, t) for bi, t in lf.calls() if t.callee.method in ("map_or_else", "map_or", "map") and "Option" in (t.callee.name or "")]
+        if len(gets) == 1 and len(moe) == 1 and len(moe[0][1].args) == 3:
+            gi = params_of(pvn.of_operand(lf, gets[0][1].args[1]), lf.id)
+            tab = any(a[0] == "constdef" and a[1].endswith("FCACHE") for a in pv.of_operand(lf, gets[0][1].args[0]))
+            ck.ob("TABLE", "ln_factorial/table-index", gi == {1} and tab, "ln_factorial looks up %s at index %s" % ("the factorial table" if tab else "something else than FCACHE", "x" if gi == {1} else sorted(gi)), where=lf.where(gets[0][1].line))
+            cid = pvn.closure_of_operand(lf, moe[0][1].args[2])
+            cb = prog.bodies.get(cid) if cid else None
+            if cb is not None:
+                def tleaf(ex, body, kind, obj):
+                    if kind == "param" and obj[0] == 2:
+                        return S("entry")
+                    if kind == "place" and obj.local == 2:
+                        return S("entry")
+                    return None
+                r0 = [t for bi, t in cb.calls() if t.dest is not None and t.dest.is_local() and t.dest.local == 0]
+                fe = Extract(prog, pvn, tleaf).call(cb, r0[0], 0, None) if len(r0) == 1 else None
+                if not r0:
+                    a0 = [(pos, st) for pos, st in cb.stmts() if st.k == "assign" and st.place.local == 0 and st.place.is_local()]
+                    fe = Extract(prog, pvn, tleaf).rvalue(cb, a0[0][1], 0, a0[0][0]) if len(a0) == 1 else None
+                from expr import F as _F
+                eq = expr_equal(fe, _F("ln", S("entry"))) if fe is not None else None
+                if eq is None:
+                    ck.undecided("TABLE", "ln_factorial/table-value", "value taken from the table entry not recognised", where=cb.where())
+                else:
+                    ck.ob("TABLE", "ln_factorial/table-value", eq, "for x within the table ln_factorial returns %s (expected ln(entry))" % eshow(fe), where=cb.where())
     # the factorial table holds finite values only: n! <= f64::MAX  <=>  n <= 170.  One entry more is +inf, and ln_factorial chooses
     # between table and ln_gamma by the table's length alone.
     import math
